@@ -65,14 +65,23 @@ class Scn:
     def login(self, slot, **kv):
         self.ops.append({"kind": "login", "slot": slot, "kv": dict(kv)})
 
+    def op(self, kind, slot, **kv):
+        self.ops.append({"kind": kind, "slot": slot, "kv": dict(kv)})
+
     def sub(self, upto):
         """the scenario reduced to op number [upto] and the ops it descends from (root secret + chain)"""
-        need, keep = {upto}, []
+        need, slots = {upto}, set()
         want = self.ops[upto]["kv"].get("src")
         for i in range(upto - 1, -1, -1):
             if want is not None and self.ops[i]["slot"] == want:
                 need.add(i)
+                slots.add(want)
                 want = self.ops[i]["kv"].get("src")
+        # earlier guesses at the same reset code (once / lock-out depend on them)
+        for i in range(upto):
+            o = self.ops[i]
+            if o["kind"] == "login" and o["kv"].get("sch") == "code" and o["kv"].get("src") in slots:
+                need.add(i)
         s = Scn(self.id, self.key, self.serial, self.expire_in, self.code_expire_in, self.vld)
         for i in sorted(need):
             op = {"kind": self.ops[i]["kind"], "slot": self.ops[i]["slot"], "kv": dict(self.ops[i]["kv"])}
@@ -88,7 +97,7 @@ class Scn:
         s = Scn(w[1], unhx(kv["key"]), int(kv["serial"]), int(kv["expire_in"]), int(kv["code_expire_in"]), int(kv["vld"]))
         for l in lines[1:]:
             w = l.split()
-            if w and w[0] in ("iss", "login"):
+            if w and w[0] in ("iss", "login", "reset", "acccred", "accnew"):
                 s.ops.append({"kind": w[0], "slot": w[1], "kv": kvs(w[2:])})
         return s
 
@@ -143,6 +152,32 @@ def gen_scenarios(ctx, quick, rng=None):
                 s.login("c%d_0" % k, sess="new", sch="token", src="c%d" % k)
                 s.login("c%d_1" % k, sess="new", sch="token", src="c%d_0" % k)
                 s.login("cb%d" % k, sess="new", sch="code", who=who, guess="bad")
+            # the real reset flow ({login scheme=reset} -> authSecretReset -> code handed to the validator):
+            # wrong guess, right guess, the same code again, the token it begot exchanged; three wrong guesses
+            # and then the right one; a credential nobody owns
+            for who in ("1", "2", "6", "3"):
+                k += 1
+                s.op("reset", "r%d" % k, who=who)
+                s.login("r%d_a" % k, sess="new", sch="code", src="r%d" % k, guess="bad")
+                s.login("r%d_b" % k, sess="new", sch="code", src="r%d" % k, guess="ok")
+                s.login("r%d_c" % k, sess="new", sch="code", src="r%d" % k, guess="ok")
+                s.login("r%d_d" % k, sess="new", sch="token", src="r%d_b" % k)
+                s.login("r%d_e" % k, sess="new", sch="token", src="r%d_d" % k)
+                s.op("reset", "q%d" % k, who=who)
+                for j in range(3):
+                    s.login("q%d_%d" % (k, j), sess="new", sch="code", src="q%d" % k, guess="bad")
+                s.login("q%d_3" % k, sess="new", sch="code", src="q%d" % k, guess="ok")
+            s.op("reset", "u%d" % k, who="1", known="0")
+            s.login("u%d_0" % k, sess="new", sch="code", src="u%d" % k, guess="ok")
+            # temporary tokens of credential-validation requests ({acc}), exchanged twice
+            for who in ("1", "2"):
+                k += 1
+                s.op("acccred", "a%d" % k, who=who)
+                s.login("a%d_0" % k, sess="new", sch="token", src="a%d" % k)
+                s.login("a%d_1" % k, sess="new", sch="token", src="a%d_0" % k)
+            k += 1
+            s.op("accnew", "n%d" % k)
+            s.login("n%d_0" % k, sess="new", sch="token", src="n%d" % k)
             for who in ("1", "2", "6", "7", "8", "9", "5", "3", "4"):
                 k += 1
                 s.login("b%d" % k, sess="new", sch="basic", who=who, pw="ok")
@@ -152,6 +187,7 @@ def gen_scenarios(ctx, quick, rng=None):
     for _ in range(60 if quick else 1500):
         s = new()
         slots = []
+        resets = []
         nsess = 0
         for _ in range(rng.randrange(6, 16)):
             x = rng.random()
@@ -159,6 +195,23 @@ def gen_scenarios(ctx, quick, rng=None):
             sess = "new"
             if nsess and rng.random() < 0.2:
                 sess = str(rng.randrange(nsess))
+            y = rng.random()
+            if y < 0.07:
+                s.op("reset", slot, **({"who": rng.choice(whos)} if rng.random() < 0.85 else {"who": "1", "known": "0"}))
+                resets.append(slot)
+                nsess += 1
+                continue
+            if y < 0.2 and resets:
+                s.login(slot, sess=sess, sch="code", src=rng.choice(resets[-2:]), guess=rng.choice(["ok", "bad", "bad"]))
+                if sess == "new":
+                    nsess += 1
+                slots.append(slot)
+                continue
+            if y < 0.25:
+                s.op("acccred", slot, who=rng.choice(["1", "2", "6", "8", "9"]))
+                nsess += 1
+                slots.append(slot)
+                continue
             if x < 0.3 or not slots:
                 lt = rng.choice(lifetimes(rng, s.expire_in))
                 if lt:
@@ -216,7 +269,7 @@ def run_impl(ctx, scns, tag="relogin"):
             if w[0] == "scn":
                 cur = []
                 res[w[1]] = cur
-            elif w[0] in ("iss", "r") and cur is not None:
+            elif w[0] in ("iss", "r", "reset", "tmp") and cur is not None:
                 cur.append((w[0], w[1], w[2] if w[0] == "iss" else None, kvs(w[2:]), l))
     return rc, res, log
 
@@ -226,10 +279,15 @@ class Ev:
     pass
 
 
+MAX_RETRIES = 3      # max_retries of the scenario's code authenticator (driver)
+
+
 def events(scn, rows):
-    """join the ops of a scenario with the driver's rows; track which user / root every slot descends from"""
+    """join the ops of a scenario with the driver's rows; track which user / root every slot descends from and,
+    for the codes of the reset flow, what Pure/Code.v says about them (used / failed guesses)"""
     evs = []
-    who_of, tok_of = {}, {}
+    who_of = {}
+    resets = {}
     for i, (op, row) in enumerate(zip(scn.ops, rows)):
         e = Ev()
         e.i, e.op, e.kind, e.slot, e.kv, e.line = i, op, op["kind"], op["slot"], op["kv"], row[4]
@@ -239,30 +297,52 @@ def events(scn, rows):
         e.t0, e.t1 = int(r.get("t0", 0)), int(r.get("t1", 0))
         e.tok = unhx(r.get("tok", "-")) or None
         e.exp = None if r.get("exp", "-") == "-" else int(r["exp"])
+        e.panic = r.get("panic", "0")
+        e.uid = int(r.get("uid", 0))
         if e.kind == "iss":
             e.who = op["kv"]["who"]
             e.ok = row[2] == "ok"
+        elif e.kind in ("acccred", "accnew"):
+            e.who = op["kv"].get("who", "new")
+            e.code = int(r.get("code", 0))
+        elif e.kind == "reset":
+            e.who = op["kv"]["who"]
+            e.code = int(r.get("code", 0))
+            e.sent = r.get("sent") == "1"
+            e.after = tuple(int(x) for x in r.get("after", "0,0").split(","))
+            resets[e.slot] = {"who": e.who, "uid": e.uid, "sent": e.sent, "used": False, "fails": 0, "op": i}
         else:
             e.code = int(r.get("code", 0))
             e.before = tuple(int(x) for x in r["before"].split(","))
             e.after = tuple(int(x) for x in r["after"].split(","))
             e.ptok = unhx(r.get("ptok", "-"))
-            e.panic = r.get("panic", "0")
             e.sch = op["kv"].get("sch")
+            e.accepted = e.code in (200, 300)
+            e.reset = None
             if e.sch == "token":
                 e.who = who_of.get(op["kv"].get("src"))
                 e.parent = op["kv"].get("src")
                 e.unaltered = "mut" not in op["kv"]
+            elif e.sch == "code" and "src" in op["kv"]:
+                st = resets.get(op["kv"]["src"])
+                e.reset = dict(st) if st else {"who": None, "uid": 0, "sent": False, "used": False, "fails": 0, "op": -1}
+                e.who, e.uid = e.reset["who"], e.reset["uid"]
+                right = op["kv"].get("guess") == "ok"
+                # Pure/Code.v: the row exists until the first success; a guess is compared only below max_retries
+                e.code_ok = bool(st) and st["sent"] and not st["used"] and st["fails"] < MAX_RETRIES and right
+                if st and st["sent"] and not st["used"] and e.before[0] == 0:     # an authenticated session is answered 409 before Authenticate
+                    if e.code_ok:
+                        st["used"] = True
+                    elif st["fails"] < MAX_RETRIES and not right:
+                        st["fails"] += 1
             else:
                 e.who = op["kv"].get("who")
-            e.uid = int(r.get("uid", 0))
-            e.accepted = e.code in (200, 300)
+                if e.sch == "code":
+                    e.code_ok = op["kv"].get("guess") == "ok"
         if e.tok is not None:
             who_of[e.slot] = e.who
-            tok_of[e.slot] = e.tok
         else:
             who_of.pop(e.slot, None)
-            tok_of.pop(e.slot, None)
         evs.append(e)
     return evs
 
@@ -280,8 +360,7 @@ def model_request(scn, e):
         lvl = f[2] if f else 0
     elif e.sch == "code":
         who = e.who
-        ok = e.kv.get("guess") == "ok"
-        sec = "code:%d" % e.uid if ok else "code:-"
+        sec = "code:%d" % e.uid if e.code_ok else "code:-"
         lvl = 0
     elif e.sch == "basic":
         who = e.who
@@ -290,7 +369,7 @@ def model_request(scn, e):
         sec = "basic:%d:%d:%s" % (e.uid, lvl, e.r.get("bexp", "0")) if ok else "basic:-"
     else:
         who, lvl, sec = None, 0, "bogus"
-    state_ok = 1 if who in STATE_OK else 0
+    state_ok = 1 if (who in STATE_OK or who == "new") else 0
     unvalidated = 1 if (scn.vld and lvl in (20, 30) and who not in VALIDATED) else 0
     return "R %s %d %d %d %d %d %d %d %d %d %s | %s" % (hx(key), scn.serial, scn.expire_in, scn.code_expire_in, state_ok, unvalidated,
                                                        e.before[0], e.before[1], e.t0, e.t1, sec, aux)
@@ -308,8 +387,11 @@ def impl_projection(e):
 def agrees(e, model):
     """projection compared: reply class, session (uid, level) afterwards, signed user / level / features of the token
     handed back, its expiry second and the 'expires' of the reply within the model's bracket"""
-    head, exp = impl_projection(e)
     w = model.split()
+    if e.kind in ("acccred", "accnew"):
+        T = fields(e.tok)
+        return len(w) == 5 and [T[0], T[2], T[4]] == [int(x) for x in w[:3]] and int(w[3]) <= T[1] <= int(w[4])
+    head, exp = impl_projection(e)
     if w and w[0] == "AMBIG":
         return True       # the answer depends on where inside [t0, t1] the clock was read: not comparable
     if exp is None:
@@ -340,9 +422,36 @@ def monitors(scn, evs):
         if e.broken:
             continue
         if e.panic != "0":
-            fail("relogin-no-panic", e, "login panicked / hung: " + e.panic)
+            fail("relogin-no-panic", e, "%s panicked / hung: %s" % (e.kind, e.panic))
+            continue
+        if e.kind == "reset":
+            if e.after != (0, 0):
+                fail("reset-never-authenticates", e, "session became %s after {login scheme=reset}" % (e.after,))
+            continue
+        if e.kind in ("acccred", "accnew"):
+            # the temporary token handed to the credential validator
+            if e.tok is None:
+                continue
+            T = fields(e.tok)
+            if len(e.tok) != 50 or hmac.new(scn.key, e.tok[:18], hashlib.sha256).digest() != e.tok[18:50] or T[3] != scn.serial % 65536:
+                fail("relogin-token-signed", e, "the temporary token is not data || HMAC-SHA256(key, data) with the configured serial")
+            if T[0] != e.uid:
+                fail("tmp-token-owner", e, "temporary token for uid %d, account %d" % (T[0], e.uid))
+            if T[1] > (e.t1 + 86400 * SEC + 500000) // SEC:
+                fail("tmp-token-24h", e, "temporary token expires %d s after its issue" % (T[1] - e.t1 // SEC))
+            if e.kind == "acccred" and T[4] & F_NOLOGIN == 0:
+                fail("tmp-token-restricted", e, "temporary token of a credential update has features %d: usable for a full login" % T[4])
+            by_slot[e.slot] = e
             continue
         R = fields(e.tok)
+        if e.kind == "login" and e.sch == "code" and e.reset is not None and e.accepted:
+            st = e.reset
+            if not st["sent"]:
+                fail("reset-code-never-sent", e, "a code was accepted for a credential nobody owns")
+            elif st["used"]:
+                fail("reset-code-once", e, "second successful use of the reset code of op %d" % st["op"])
+            elif st["fails"] >= MAX_RETRIES:
+                fail("reset-code-lockout", e, "success after %d failed attempts (max_retries %d)" % (st["fails"], MAX_RETRIES))
         if not e.accepted:
             # refused: nothing is handed back, the session is as before
             if e.tok is not None:
@@ -429,7 +538,7 @@ def monitors(scn, evs):
         if e.tok is None:
             continue
         f = fields(e.tok)
-        if e.kind == "iss" or e.sch != "token":
+        if e.kind != "login" or e.sch != "token":
             root[e.slot] = (e, 0)
         elif e.accepted and e.parent in root:
             r0, sl = root[e.parent]
@@ -485,6 +594,10 @@ def evaluate(ctx, scns, tag="relogin"):
         for e in evs:
             if e.kind == "login" and not e.broken:
                 reqs.append(model_request(s, e))
+                req_of.append((s, e))
+            elif e.kind in ("acccred", "accnew") and not e.broken and e.tok is not None:
+                reqs.append("G %s %d %d %s %d %d %d" % (hx(s.key), s.serial, s.expire_in, "create" if e.kind == "accnew" else "update",
+                                                       e.uid, e.t0, e.t1))
                 req_of.append((s, e))
     rc, model, err = ctx.run_model("c12x", reqs)
     if rc != 0 or len(model) != len(reqs):
@@ -555,7 +668,8 @@ def run(ctx, scns=None):
         ctx.violation("corr", "correspondence-relogin",
                       "model (Sys/Relogin.v) and implementation disagree on %d of %d logins, e.g. scenario %s op %d: impl=%s model=%s; "
                       "no law failure found on %d neighbouring operations" %
-                      (len(open_mism), sum(len(v) for v in all_evs.values()), s.id, e.i, impl_projection(e), e.model, searched),
+                      (len(open_mism), sum(len(v) for v in all_evs.values()), s.id, e.i,
+                       impl_projection(e) if e.kind == "login" else fields(e.tok), e.model, searched),
                       {"correspondence": "projection reply class / session / token fields / expiry of {login}",
                        "scenario": s.sub(e.i).lines(), "impl": e.line[:600], "model": e.model, "model_request": rq[:600],
                        "more": [{"scenario": s2.sub(e2.i).lines(), "impl": e2.line[:400], "model": e2.model} for s2, e2, _ in open_mism[1:6]]})
@@ -576,7 +690,11 @@ def run(ctx, scns=None):
             if op["kind"] == "login" and op["kv"].get("sch") == "token":
                 depth[op["slot"]] = depth.get(op["kv"].get("src"), 0) + 1
         chains = max([chains] + list(depth.values()))
-    return {"scenarios": len(scns), "logins": len(logins), "issued_directly": sum(1 for evs in all_evs.values() for e in evs if e.kind == "iss"),
+    kinds = {}
+    for evs in all_evs.values():
+        for e in evs:
+            kinds[e.kind] = kinds.get(e.kind, 0) + 1
+    return {"scenarios": len(scns), "logins": len(logins), "ops_by_kind": kinds, "issued_directly": sum(1 for evs in all_evs.values() for e in evs if e.kind == "iss"),
             "restricted_exchanges_accepted": restricted_ex, "longest_chain": chains, "by_scheme_code_kind": dist,
             "correspondence_mismatches": len(open_mism), "monitor_failures": len(fails) + len(found), "search_ops": searched,
             "samples": [e.line[:260] for e in logins[:2]]}
